@@ -189,6 +189,13 @@ def _run_shard(args) -> ShardResult:
     old_stdout = sys.stdout
     try:
         _silence()
+        if cname == "__stored__":  # replay of one stored case; `shard` carries the case itself
+            import importlib
+
+            mod = importlib.import_module(modname)
+            res.stored_failures = replay_case(mod, tier, shard)  # type: ignore[attr-defined]
+            res.evals = 1
+            return res
         mod, camp = _get_campaign(modname, tier, cname)
         known = load_known(mod.PID)
         predicates = getattr(mod, "PREDICATES", {})
@@ -445,6 +452,21 @@ def _trim(obj: Any, limit: int = 6000) -> Any:
     return {"truncated_json": s[:limit]}
 
 
+def _campaign_jobs(mod, modname: str, tier: str, seed: int) -> list:
+    jobs = []
+    for c in mod.campaigns(tier):
+        n_total = c.quick if tier == "quick" else c.thorough
+        shards = c.shards_quick if tier == "quick" else c.shards_thorough
+        shards = max(1, min(shards, NCPU, n_total if n_total else shards))
+        if c.enumerate is not None:
+            per = n_total // shards if n_total else 0
+        else:
+            per = max(1, n_total // shards)
+        for s in range(shards):
+            jobs.append((modname, tier, c.name, s, shards, seed, per))
+    return jobs
+
+
 def run_check(modname: str, tier: str, seed: int, replay: str | None = None) -> int:
     import importlib
 
@@ -496,14 +518,13 @@ def run_check(modname: str, tier: str, seed: int, replay: str | None = None) -> 
                     stored_cases.append(("regression", os.path.join(rdir, fn), json.load(f)["case"], None))
     n_regress = 0
     known_lines: list[str] = []
-    old = sys.stdout
-    for kind, where, case, entry in stored_cases:
-        _silence()
-        try:
-            fails = replay_case(mod, tier, case)
-        finally:
-            sys.stdout.close()
-            sys.stdout = old
+    stored_jobs = [(modname, tier, "__stored__", case, 1, seed, 1) for _, _, case, _ in stored_cases]
+    camp_jobs = _campaign_jobs(mod, modname, tier, seed)
+    all_results = _run_jobs(stored_jobs + camp_jobs)
+    stored_results, camp_results = all_results[: len(stored_jobs)], all_results[len(stored_jobs) :]
+    stored_errors = [r.error for r in stored_results if r.error]
+    for (kind, where, case, entry), sres in zip(stored_cases, stored_results):
+        fails = list(getattr(sres, "stored_failures", []))
         n_regress += 1
         if kind == "finding":
             still = [f for f in fails if match_known([entry], predicates, case, f) is not None]
@@ -525,19 +546,9 @@ def run_check(modname: str, tier: str, seed: int, replay: str | None = None) -> 
     camps = mod.campaigns(tier)
     total = ShardResult()
     per_campaign: dict[str, dict] = {}
-    errors: list[str] = []
-    jobs = []
-    for c in camps:
-        n_total = c.quick if tier == "quick" else c.thorough
-        shards = c.shards_quick if tier == "quick" else c.shards_thorough
-        shards = max(1, min(shards, NCPU, n_total if n_total else shards))
-        if c.enumerate is not None:
-            per = n_total // shards if n_total else 0
-        else:
-            per = max(1, n_total // shards)
-        for s in range(shards):
-            jobs.append((modname, tier, c.name, s, shards, seed, per))
-    results: list[tuple[tuple, ShardResult]] = list(zip(jobs, _run_jobs(jobs)))
+    errors: list[str] = [f"[stored case]\n{e}" for e in stored_errors]
+    jobs = camp_jobs
+    results: list[tuple[tuple, ShardResult]] = list(zip(jobs, camp_results))
     camp_by_name = {c.name: c for c in camps}
     all_buckets: dict[tuple[str, str], dict] = {}
     for job, res in results:
